@@ -101,6 +101,9 @@ type c07Table struct {
 	rows      [][]c07Cell         // nil row = separator
 	skip      map[int]interface{} // column -> property value (absent = unset)
 	desc      string
+	// preHeader > 0: a narrower header of that many columns is added first and the skipable settings are made
+	// THEN (before the table grows to its final width), instead of at the end
+	preHeader int
 }
 
 type hiddenStringer struct{ s string }
@@ -208,6 +211,16 @@ func c07Expect(t *c07Table) (objs []map[string]interface{}, wantErr bool, why st
 
 func c07Run(x *X, c *Chooser, t *c07Table, tags []string) {
 	jt := tjson.New()
+	if t.preHeader > 0 {
+		jt.AddHeaders(strItems(t.header[:t.preHeader])...)
+		for col, v := range t.skip {
+			if cp := jt.Column(col); cp != nil {
+				cp.SetProperty(properties.Skipable, v)
+			} else {
+				panic("harness: skipable column does not exist yet")
+			}
+		}
+	}
 	if t.hasHeader {
 		jt.AddHeaders(strItems(t.header)...)
 	}
@@ -223,6 +236,9 @@ func c07Run(x *X, c *Chooser, t *c07Table, tags []string) {
 		jt.AddRowItems(items...)
 	}
 	for col, v := range t.skip {
+		if t.preHeader > 0 {
+			break
+		}
 		if cp := jt.Column(col); cp != nil {
 			cp.SetProperty(properties.Skipable, v)
 		}
@@ -393,6 +409,33 @@ func runC07(x *X) {
 		x.Transition(1)
 		x.Nontrivial(t.desc)
 		c07Run(x, c, t, []string{"ten_or_more_columns"})
+	})
+
+	// settings made while the table is still narrow must survive its growth (column storage re-allocates at 10)
+	x.Explore("skipable-set-before-growth", ExploreOpts{ShardDepth: 2, Bound: "header of 1/2/5/9 columns first; skipable {true, non-bool} on column 0 | 1 | the last one; then the header is replaced by one of 10/11/12/17/33 columns and rows are added (empty cell in that column)"}, func(c *Chooser) {
+		w0 := []int{1, 2, 5, 9}[c.Choose(4)]
+		wide := []int{10, 11, 12, 17, 33}[c.Choose(5)]
+		col := []int{0, 1, w0}[c.Choose(3)]
+		val := []interface{}{true, "yes"}[c.Choose(2)]
+		t := &c07Table{hasHeader: true, skip: map[int]interface{}{col: val}, preHeader: w0}
+		for i := 1; i <= wide; i++ {
+			t.header = append(t.header, fmt.Sprintf("k%d", i))
+		}
+		mk := func(n int) []c07Cell {
+			r := make([]c07Cell, n)
+			for i := range r {
+				r[i] = c07Cell{fmt.Sprintf("v%d", i+1), "str"}
+				if i == col-1 || (col == 0 && i == 3) {
+					r[i] = c07Cell{"", `""`}
+				}
+			}
+			return r
+		}
+		t.rows = [][]c07Cell{mk(wide), mk(w0)}
+		t.desc = fmt.Sprintf("header of %d columns, skipable=%v on column %d, then header of %d columns, rows of %d and %d cells", w0, val, col, wide, wide, w0)
+		x.Transition(1)
+		x.Nontrivial(t.desc)
+		c07Run(x, c, t, []string{"property_set_before_growth", "ten_or_more_columns"})
 	})
 
 	// (b) skipable
